@@ -89,6 +89,14 @@ func (q *UdpTaskQueue) popOverflowTask() (UdpTask, bool) {
 	q.enqueueMu.Lock()
 	defer q.enqueueMu.Unlock()
 
+	// Anything still in the channel was accepted before every overflow entry; a producer
+	// may have refilled the channel after popReadyTask's non-blocking check.
+	select {
+	case task := <-q.ch:
+		return task, true
+	default:
+	}
+
 	if len(q.overflow) == 0 {
 		q.overflowMode = false
 		return nil, false
